@@ -1,4 +1,7 @@
-import DswModel.Tie.SwStubs
+import DswModel.Tie.SwVt
+import DswModel.Tie.Corollaries
+import DswModel.Tie.OpBits
+import DswModel.Tie.SwDecodeFast
 /-!
 # Translation tie — `decode` (dsw/spiderweb.py)
 
@@ -6,10 +9,109 @@ import DswModel.Tie.SwStubs
 `Dsw.decode` — both modes, with and without a shuffle table, with and without a (non-empty) check,
 including every error outcome — for every well-formed accessor, every start vertex of it, every
 table the code can index, and EVERY string (foreign characters included).
+
+Lemma structure: `SwDecodeNp.lean` (NumPy primitives on the embeddings), `SwDecodeNormal.lean`
+(walk loop = `decodeWalk`, Horner loop = `hornerStr`, `number_to_bit`), `SwDecodeFast.lean`
+(fast loop = `decodeFastLoop`); here the two modes are put together (`k10`) behind the check
+comparison (`set_vt`, model `vtMatches`).
 -/
 namespace Dsw.Tie
-open Dsw Dsw.Py Dsw.Tie.Stub
+open Dsw Dsw.Py
 
+namespace DecodeTie
+
+/-- what `decode` does after the check comparison. -/
+def decodeTail (a : Acc) (tbl : Option Tbl) (v : Int) (s : List Char) (L : Nat) (fast : Bool) : R (List Nat) :=
+  if fast then do
+    let bits ← decodeFastLoop a tbl L v s 0
+    pure (bits ++ List.replicate (L - bits.length) 0)
+  else do
+    let saved ← decodeWalk a tbl v s
+    numberToBitStr (hornerStr saved) L
+
+theorem decode_eq (a : Acc) (tbl : Option Tbl) (v : Int) (s : List Char) (L : Nat) (fast : Bool)
+    (chk : Option (List Char)) :
+    Dsw.decode a tbl v s L fast chk =
+      (vtMatches s chk >>= fun okc => if !okc then .error .valueError else decodeTail a tbl v s L fast) := rfl
+
+/-- normal mode: the walk loop, `k5` (Horner, `number_to_bit`), `k9`. -/
+theorem normal_spec (fuel : Nat) {a : Acc} (ha : a.WF) {tbl : Option Tbl} (ht : TblOK tbl a) (verbose : Bool)
+    (L : Nat) {v : Int} (hv : InR a v) (s : List Char) (hf : 4 * s.length + 6 ≤ fuel) (e : Gen.decode.Env)
+    (hr : WalkRel a tbl verbose L v [] e) :
+    callResult (seq (seq (forLoop (Gen.decode.for1_body fuel) (enumFrom 0 (s.map fun c => PV.str [c])) e)
+      (Gen.decode.k5 fuel)) (Gen.decode.k9 fuel)) = (decodeTail a tbl v s L false).map bitsPV := by
+  have hl := for1_loop fuel ha ht verbose L s 0 v hv [] e hr
+  simp only [decodeTail, Bool.false_eq_true, if_false]
+  cases hd : decodeWalk a tbl v s with
+  | error err =>
+    rw [hd] at hl
+    rw [hl]
+    rfl
+  | ok saved =>
+    rw [hd] at hl
+    obtain ⟨e1, v', hl1, hr1⟩ := hl
+    obtain ⟨hlen, hb⟩ := decodeWalk_bounds ha tbl s v hv saved hd
+    obtain ⟨hcan, hval⟩ := hornerStr_spec saved hb
+    have hlt : (hornerStr saved).toNat < 10 ^ s.length := by
+      have h1 : 4 ^ saved.length ≤ 4 ^ s.length := Nat.pow_le_pow_right (by omega) hlen
+      have h2 := four_pow_le_ten_pow s.length
+      omega
+    have hfuel := digitsFuel_le hcan hlt
+    obtain ⟨e2, h2, hbm⟩ := k5_spec fuel (by omega) L saved
+      (fun p hp => by have := hb p hp; omega) hcan (by omega) e1 hr1.2.2.2.2.2.1 hr1.2.2.2.2.2.2.1
+      hr1.2.2.2.2.2.2.2
+    rw [hl1, seq_norm, h2, seq_norm]
+    simp only [Gen.decode.k9, hbm, callResult_ret]
+    show _ = (numberToBitStr (hornerStr saved) L).map bitsPV
+    rw [numberToBitStr_eq _ hcan]
+    rfl
+
+/-- fast mode: the loop, `k9`. -/
+theorem fast_spec (fuel : Nat) {a : Acc} (ha : a.WF) {tbl : Option Tbl} (ht : TblOK tbl a)
+    (L : Nat) {v : Int} (hv : InR a v) (s : List Char) (e : Gen.decode.Env)
+    (hr : FastRel a tbl L v 0 (List.replicate L 0) e) :
+    callResult (seq (forLoop (Gen.decode.for3_body fuel) (enumFrom 0 (s.map fun c => PV.str [c])) e)
+      (Gen.decode.k9 fuel)) = (decodeTail a tbl v s L true).map bitsPV := by
+  have hl := for3_loop fuel ha ht L s 0 v hv 0 (List.replicate L 0) e hr
+  simp only [decodeTail, if_true]
+  cases hd : decodeFastLoop a tbl L v s 0 with
+  | error err =>
+    rw [hd] at hl
+    rw [hl]
+    rfl
+  | ok bits =>
+    rw [hd] at hl
+    obtain ⟨e1, hl1, hbm⟩ := hl
+    have hlen := decodeFastLoop_length ha tbl L s v 0 hv bits hd
+    have hw := writeBits_zeros [] bits L (by omega)
+    simp only [List.nil_append, List.length_nil] at hw
+    rw [hl1, seq_norm]
+    simp only [Gen.decode.k9, hbm, callResult_ret, hw]
+    rfl
+
+/-- `k10`: the two modes. -/
+theorem k10_spec (fuel : Nat) {a : Acc} (ha : a.WF) {tbl : Option Tbl} (ht : TblOK tbl a) (verbose : Bool)
+    (L : Nat) {v : Int} (hv : InR a v) (s : List Char) (fast : Bool) (hf : 4 * s.length + 6 ≤ fuel)
+    (e : Gen.decode.Env) (h1 : e.dna_sequence = .str s) (h2 : e.bit_length = .int (L : Int))
+    (h3 : e.accessor = accPV a) (h4 : e.vertex_index = .int v) (h5 : e.is_faster = .bool fast)
+    (h6 : e.shuffles = tblPV tbl) (h7 : e.verbose = .bool verbose)
+    (h8 : e.nucleotides = .str ['A', 'C', 'G', 'T']) :
+    callResult (Gen.decode.k10 fuel e) = (decodeTail a tbl v s L fast).map bitsPV := by
+  cases fast with
+  | false =>
+    simp only [Gen.decode.k10, h5, truthy_bool, bnd_ok, Bool.not_false, if_true, h1, pyEnumerate_str, pyIter_list]
+    refine normal_spec fuel ha ht verbose L hv s hf _ ?_
+    walk_rel
+  | true =>
+    simp only [Gen.decode.k10, h5, truthy_bool, bnd_ok, Bool.not_true, Bool.false_eq_true, if_false, h1, h2,
+      npZeros_nat, pyEnumerate_str, pyIter_list]
+    refine fast_spec fuel ha ht L hv s _ ?_
+    have : (List.replicate L 0).length = L := by simp
+    fast_rel
+
+end DecodeTie
+
+open DecodeTie in
 theorem tie_decode (a : Acc) (tbl : Option Tbl) (v : Nat) (s : List Char) (L : Nat) (fast : Bool)
     (chk : Option (List Char)) (fuel : Nat) (verbose : Bool)
     (ha : a.WF) (hv : v < a.size) (ht : TblOK tbl a) (hc : ∀ c, chk = some c → c ≠ [])
@@ -17,6 +119,42 @@ theorem tie_decode (a : Acc) (tbl : Option Tbl) (v : Nat) (s : List Char) (L : N
     Gen.decode fuel (cstr s) (.int (L : Int)) (accPV a) (.int (v : Int)) (.bool fast) (chkPV chk) (tblPV tbl)
         (.bool verbose) =
       (Dsw.decode a tbl v s L fast chk).map bitsPV := by
-  sorry
+  have hvR : InR a (v : Int) := inR_natCast hv
+  have hfs : 4 * s.length + 6 ≤ fuel := by omega
+  have hk10 : ∀ e : Gen.decode.Env, e.dna_sequence = .str s → e.bit_length = .int (L : Int) →
+      e.accessor = accPV a → e.vertex_index = .int (v : Int) → e.is_faster = .bool fast →
+      e.shuffles = tblPV tbl → e.verbose = .bool verbose → e.nucleotides = .str ['A', 'C', 'G', 'T'] →
+      callResult (Gen.decode.k10 fuel e) = (decodeTail a tbl v s L fast).map bitsPV :=
+    fun e => k10_spec fuel ha ht verbose L hvR s fast hfs e
+  rw [decode_eq]
+  cases chk with
+  | none =>
+    simp only [Gen.decode, Gen.decode.body, chkPV, pyIsNone_none, Bool.not_true, bnd_ok, Bool.false_eq_true,
+      if_false, seq_norm]
+    rw [hk10 _ rfl rfl rfl rfl rfl rfl rfl rfl]
+    rfl
+  | some c =>
+    have hc1 : 1 ≤ c.length := by
+      have := hc c rfl
+      cases c with
+      | nil => exact absurd rfl this
+      | cons x xs => simp
+    have hvt := tie_set_vt s c.length fuel hc1 (by simp only [Option.map_some, Option.getD_some] at hf; omega)
+    simp only [Gen.decode, Gen.decode.body, chkPV, pyIsNone_str, Bool.not_false, bnd_ok, if_true, pyLen_str, hvt,
+      vtMatches]
+    cases hsv : setVt s c.length with
+    | error err => rfl
+    | ok r =>
+      simp only [R_map_ok, cstr, bnd_ok, pyNe_def, eqb_str]
+      by_cases hcr : c = r
+      · subst hcr
+        simp only [beq_self_eq_true, Bool.not_true, Bool.false_eq_true, if_false, seq_norm]
+        rw [hk10 _ rfl rfl rfl rfl rfl rfl rfl rfl]
+        simp [bind, Except.bind]
+      · have h1 : (c == r) = false := by simp [hcr]
+        have hrc : ¬ r = c := fun h => hcr h.symm
+        have h2 : (r == c) = false := by simp [hrc]
+        simp only [h1, Bool.not_false, if_true, seq_error, callResult_error]
+        simp [bind, Except.bind, h2]
 
 end Dsw.Tie
